@@ -10,6 +10,7 @@ import (
 	"sort"
 	"strings"
 	"testing"
+	"time"
 
 	"go.etcd.io/bbolt"
 
@@ -84,7 +85,7 @@ func genPersistOps(r *simrt.RNG, client, n int, nss []string, uniq *int) []Persi
 	for i := 0; i < n; i++ {
 		*uniq++
 		op := PersistOp{NS: nss[r.Intn(len(nss))], Type: []string{TypeA, TypeB}[r.Pick([]int{3, 1})], ID: fmt.Sprintf("r%d", r.Intn(3)), Val: fmt.Sprintf("p%d_%d", client, *uniq)}
-		op.Kind = []string{"create", "update", "destroy", "teardown", "addfin", "remfin", "label", "annot", "rawupdate"}[r.Pick([]int{5, 5, 2, 1, 2, 2, 2, 2, 3})]
+		op.Kind = []string{"create", "update", "destroy", "teardown", "addfin", "remfin", "label", "annot", "rawupdate", "freshupdate"}[r.Pick([]int{5, 5, 2, 1, 2, 2, 2, 2, 3, 2})]
 		op.Fin = []string{"f1", "f2"}[r.Intn(2)]
 		op.Owner = []string{"", "A"}[r.Pick([]int{3, 1})]
 		op.Big = r.Bool(0.3)
@@ -371,6 +372,22 @@ func (pw *persistWorld) apply(ctx context.Context, op PersistOp) error {
 		}
 		simrt.Yield("client.between-get-update")
 		SpecOf(r).Val = op.Val
+		return st.Update(ctx, r, state.WithUpdateOwner(op.Owner), state.WithExpectedPhaseAny())
+	case "freshupdate":
+		// Update with an object built from scratch (current version and owner set by hand, a creation time of its own):
+		// the stored creation time must survive, in memory and on disk
+		cur, err := st.Get(ctx, ptr)
+		if err != nil {
+			return err
+		}
+		r := NewRes(op.NS, op.Type, op.ID, op.Val)
+		if op.Big {
+			SpecOf(r).Tokens = bigPayload(op.Val)
+		}
+		r.Metadata().SetVersion(cur.Metadata().Version())
+		_ = r.Metadata().SetOwner(cur.Metadata().Owner())
+		r.Metadata().SetPhase(cur.Metadata().Phase())
+		r.Metadata().SetCreated(time.Date(1990, 1, 1, 0, 0, 0, 0, time.UTC))
 		return st.Update(ctx, r, state.WithUpdateOwner(op.Owner), state.WithExpectedPhaseAny())
 	case "destroy":
 		return st.Destroy(ctx, ptr, state.WithDestroyOwner(op.Owner))
